@@ -11,7 +11,7 @@ TEXT = {
          "Lean theorem (recursion = brute-force marginal) + differential check"),
  "C03": ("Theorems: both joint densities are invariant under sibling reordering, reordering inside clones and of the outlier list; the canonical form is density-preserving and a complete tree key (treeKey_iff); densities are positive (finite logs) for positive data; the outlier marginal is the single-clone marginal. Correspondence: log_p / log_p_one / fused variant / TreeHolder on trees realised through six construction histories vs the model; oracle = independent transcription of the property's formula; ==/hash vs (clades, outliers).",
          "Lean theorem (density depends only on the tree) + differential check"),
- "C04": ("Theorems: the data-point Gibbs scan and the prune-regraft move of the executable model leave pOne invariant on every well-formed closed state list (dataPointMove_invariant, pruneRegraft_invariant), any sequence of invariant kernels is invariant; capstone full_sweep_invariant / chain_invariant: one full sweep of the run loop without the random-subtree move (particle Gibbs, then the data-point scans, then the prune-regraft moves), and any number of sweeps at a fixed concentration, leave pOne invariant for all three proposals, every N and threshold. The models of all three moves are compared row by row with the exact kernels of the real samplers; oracle pi K = pi per configuration. For the random-subtree move the conditional statement is proved: given the chosen region, the re-weighted conditional SMC (abstract theorem for corrected final weights, also with the single-data-point schedule) leaves the full-tree density restricted to that region invariant, for every region a well-formed tree can yield (subtree_conditional_invariant, subtree_region_ok); the unconditional invariance is FALSE of model and code: known finding F7 (pinned instances, exact bias signature; a validated repair is recorded in findings/), which is why the level is `other`.",
+ "C04": ("Theorems: the data-point Gibbs scan and the prune-regraft move of the executable model leave pOne invariant on every well-formed closed state list (dataPointMove_invariant, pruneRegraft_invariant), any sequence of invariant kernels is invariant; capstone full_sweep_invariant / chain_invariant: one full sweep of the run loop without the random-subtree move (particle Gibbs, then the data-point scans, then the prune-regraft moves), and any number of sweeps at a fixed concentration, leave pOne invariant for all three proposals, every N and threshold. The models of all three moves, and of one whole iteration of the run loop (_run_main_sampler driven under the enumerating generator), are compared row by row with the exact kernels of the real code; oracle pi K = pi per configuration. For the random-subtree move the conditional statement is proved: given the chosen region, the re-weighted conditional SMC (abstract theorem for corrected final weights, also with the single-data-point schedule) leaves the full-tree density restricted to that region invariant, for every region a well-formed tree can yield (subtree_conditional_invariant, subtree_region_ok); the unconditional invariance is FALSE of model and code: known finding F7 (pinned instances, exact bias signature; a validated repair is recorded in findings/), which is why the level is `other`.",
          "Lean theorem (block Gibbs on the model) + exact-kernel correspondence; known finding F7"),
  "C05": ("Theorems: genotype list = PyClone major-copy-number prior; expected VAF in (0,1); binomial and beta-binomial (Pochhammer form, Chu-Vandermonde) pmfs sum to one; the genotype mixture sums to one over all alternate counts and is positive; grid entry = mixture at CCF k/(G-1); cluster grid = product of members; outlier terms = per-mutation terms to the power of the cluster size. Correspondence: load_data on generated input files vs the model and vs a Fraction oracle.",
          "Lean theorem + differential check against load_data"),
